@@ -181,10 +181,78 @@ def verify_block_format(ctx):
     ctx.solve()
 
 
+# P-04c  Changelog._format (what str(changelog) and write_to_open_file produce): the leading blank lines, each followed by a
+# newline, then the text of every block in order - nothing between, nothing after (the joined list is the list add_nl(blank lines) + texts_upto(blocks)).  The block formatter is used through an
+# abstract contract (its text is an uninterpreted function of the block and the flag; it may raise ChangelogCreateError).
+def block_text(b, flag):
+    return ""       # opaque: ChangeBlock._format(b, flag), specified by P-04b
+
+
+def add_nl(l, k):
+    """the first k lines, each with its newline"""
+    if k <= 0:
+        return no_pieces()
+    return add_nl(l, k - 1) + [l[k - 1] + "\n"]
+
+
+def texts_upto(bs, k, flag):
+    """the texts of the first k blocks"""
+    if k <= 0:
+        return no_pieces()
+    return texts_upto(bs, k - 1, flag) + [block_text(bs[k - 1], flag)]
+
+
+class BlockFormatAbs(Contract):
+    target = MOD + ":ChangeBlock._format"
+    modular = True
+    returns = "str"
+    ensures = ("result == block_text(self, allow_missing_author)",)
+    raises = {"ChangelogCreateError": ()}
+    raises_modifies = {"ChangelogCreateError": ()}
+
+
+class ChangelogFormat(Contract):
+    locals_order = ['self', 'allow_missing_author', 'pieces', 'line', 'block']
+    target = MOD + ":Changelog._format"
+    modular = False
+    ensures = ("result == ''.join(add_nl(self.initial_blank_lines, len(self.initial_blank_lines)) + "
+               "texts_upto(self._blocks, len(self._blocks), allow_missing_author))",)
+    raises = {"ChangelogCreateError": ()}
+    loops = {0: LoopSpec(invariants=("0 <= li and li <= len(self.initial_blank_lines)",
+                                     "pieces == add_nl(self.initial_blank_lines, li)",
+                                     "mention(add_nl(self.initial_blank_lines, li + 1))"),
+                         index="li", var_types={"line": "str", "pieces": ("list", "str")}),
+             1: LoopSpec(invariants=("0 <= bi and bi <= len(self._blocks)",
+                                     "pieces == add_nl(self.initial_blank_lines, len(self.initial_blank_lines)) + "
+                                     "texts_upto(self._blocks, bi, allow_missing_author)",
+                                     "mention(texts_upto(self._blocks, bi + 1, allow_missing_author))"),
+                         index="bi", var_types={"block": ("ref", "ChangeBlock"), "pieces": ("list", "str")})}
+
+    def setup(self, ex):
+        me = VObj("Changelog", {"initial_blank_lines": fresh(("list", "str"), "blank"),
+                                "_blocks": fresh(("list", ("ref", "ChangeBlock")), "blocks")}, "self")
+        return {"self": me, "allow_missing_author": fresh("bool", "allow_missing_author")}
+
+
+def verify_changelog_format(ctx):
+    sl = SpecLib()
+    w = World(sl)
+    w.heap_classes["ChangeBlock"] = {}
+    w.spec_func(block_text, rec=dict(args=[("ref", "ChangeBlock"), "bool"], ret="str", opaque=True))
+    w.spec_env["no_pieces"] = VFunc("builtin", "no_pieces",
+                                    fn=lambda ex, a, kw: VSeq("list", "str", z3.Empty(z3.SeqSort(z3.SeqSort(z3.IntSort())))))
+    w.spec_func(add_nl, rec=dict(args=[("list", "str"), "int"], ret=("list", "str")))
+    w.spec_func(texts_upto, rec=dict(args=[("list", ("ref", "ChangeBlock")), "int", "bool"], ret=("list", "str")))
+    w.add_contract(BlockFormatAbs())
+    verify_contracts(ctx, w, [ChangelogFormat()], {})
+    ctx.solve()
+
+
 def run(ctx):
     mod = extract.load(MOD)
     real = mod.real()
     verify_block_format(ctx)
+    verify_changelog_format(ctx)
     for q in ("Changelog.parse_changelog", "ChangeBlock._format", "Changelog._format"):
         node, _ = mod.lookup(q)
         if node is not None:
